@@ -82,6 +82,7 @@ type vpCfg struct {
 	APIRoutes          []string `json:"apiRoutes"`
 	Bearer             bool     `json:"bearer"`
 	ExtraIssuer        bool     `json:"extraIssuer"`
+	ExtraIssuer2       bool     `json:"extraIssuer2"` // a second extra issuer, without discovery document, listed before the first
 	Htpasswd           bool     `json:"htpasswd"`
 	HtpasswdGroups     []string `json:"htpasswdGroups"`
 	DisplayLoginForm   bool     `json:"displayLoginForm"`
@@ -201,6 +202,7 @@ type vpWorld struct {
 	opts    *options.Options
 	idp     *vpIdP
 	xidp    *vpIdP // extra JWT issuer (bearer only)
+	xidp0   *vpIdP // another extra issuer (no discovery document)
 	mr      *miniredis.Miniredis
 	mrShared bool
 	twin     *vpWorld // a second instance sharing store and provider (closed with this one)
@@ -258,6 +260,9 @@ func vpNewWorld(cfg *vpCfg) (*vpWorld, error) {
 	}
 	if cfg.ExtraIssuer {
 		w.xidp = vpNewIdP("extra")
+	}
+	if cfg.ExtraIssuer2 {
+		w.xidp0 = vpNewIdP("extra0")
 	}
 
 	lo := options.NewLegacyOptions()
@@ -370,6 +375,10 @@ func vpNewWorld(cfg *vpCfg) (*vpWorld, error) {
 	o.SkipJwtBearerTokens = cfg.Bearer
 	if cfg.ExtraIssuer {
 		o.ExtraJwtIssuers = []string{w.xidp.issuer() + "=" + vpExtraAudience}
+		if cfg.ExtraIssuer2 {
+			// the discovery-less issuer is listed FIRST
+			o.ExtraJwtIssuers = append([]string{w.xidp0.issuer() + "=" + vpExtraAudience}, o.ExtraJwtIssuers...)
+		}
 	}
 	if cfg.Htpasswd {
 		w.htpasswdPath = filepath.Join(tmp, "htpasswd")
@@ -545,6 +554,9 @@ func (w *vpWorld) close() {
 	}
 	if w.idp != nil && !w.idpShared {
 		w.idp.close()
+	}
+	if w.xidp0 != nil {
+		w.xidp0.close()
 	}
 	if w.xidp != nil {
 		w.xidp.close()
